@@ -371,6 +371,32 @@ fn run(ctx: &mut Ctx) {
             }
         }
     }
+    // 3d. the same unsupported cells with one operand being the WHOLE input (`facts` with a scalar / list / map as the input itself)
+    for (name, ctor) in BINARY.iter() {
+        if ["eq", "neq", "and", "or"].contains(name) {
+            continue;
+        }
+        for a in NON_NONE {
+            for b in NON_NONE {
+                if binary_supported(name, a, b) || !ctx.mine() {
+                    continue;
+                }
+                let cell = format!("{name}({a},{b})");
+                for (k, x) in tup[a].iter().enumerate().take(2) {
+                    let y = &tup[b][k.min(tup[b].len() - 1)];
+                    for (how, e, input) in [("left operand is the whole input", ctor(Expr::reff("facts"), Expr::value(y.clone())), x), ("right operand is the whole input", ctor(Expr::value(x.clone()), Expr::reff("facts")), y)] {
+                        ctx.count();
+                        ctx.hit("context:operand-is-the-whole-input");
+                        ctx.nontrivial(fnv(format!("{cell}|{how}|{k}").as_bytes()));
+                        let obs = crate::evalcommon::eval_real(&e, input);
+                        if !is_type_error(&obs) {
+                            ctx.violation(format!("C03 {}-instead-of-type-error {cell} ({how})", describe(&obs)), format!("{how}: {}", show_obs(&obs)), json!({"cell": cell, "how": how, "left": format!("{x:?}"), "right": format!("{y:?}"), "observed": show_obs(&obs)}));
+                        }
+                    }
+                }
+            }
+        }
+    }
     // 4. casts are the only way across: the same mixed operation succeeds once an explicit cast is applied
     if ctx.shard == 0 {
         let cases: Vec<(Expr, Value)> = vec![
